@@ -93,6 +93,19 @@ def _strip_not(c):
             return c, neg
 
 
+POS_NEG = {v: k for k, v in NEG_CMP.items()}
+
+
+def literal(c, val):
+    """the decision (c, val) as a literal that does not depend on how the test was written: negations are peeled off, and a
+    negatable comparison that is false is recorded as the opposite comparison being true (`x == 2` False  ==  `x != 2` True)"""
+    c2, neg = _strip_not(c)
+    v = (not val) if neg else val
+    if c2[0] == "cmp" and c2[1] in POS_NEG and not v:
+        return ("cmp", POS_NEG[c2[1]], c2[2], c2[3]), True
+    return c2, v
+
+
 def _impure(c):
     from .terms import callee
     return any(x[0] == "call" and callee(x) in IMPURE_IN_COND for x in walk(c))
@@ -260,7 +273,9 @@ class Evaluator:
             return self.ev(n.body, st)
         if v is False:
             return self.ev(n.orelse, st)
-        return ("ifexp", c, self.ev(n.body, st), self.ev(n.orelse, st))
+        c2, neg = _strip_not(c)
+        a, b = self.ev(n.body, st), self.ev(n.orelse, st)
+        return ("ifexp", c2, b, a) if neg else ("ifexp", c, a, b)
 
     def e_Slice(self, n, st):
         f = lambda x: self.ev(x, st) if x is not None else NONE  # noqa: E731
@@ -555,11 +570,14 @@ class Evaluator:
             c = self.ev(s.test, st)
             v = lookup(st.decided, c)
             branches = [(True, s.body), (False, s.orelse)] if v is None else [(v, s.body if v else s.orelse)]
+            if len(branches) == 2 and _strip_not(c)[1]:
+                branches.reverse()          # the arm on which the un-negated test holds comes first, however the `if` is written
             for i, (val, body) in enumerate(branches):
                 st2 = st.fork() if i < len(branches) - 1 else st
                 assume(st2.decided, c, val)
-                st2.conds.append((c, val))
-                self.emit(st2, "cond", (c, val), s)
+                lc, lv = literal(c, val)
+                st2.conds.append((lc, lv))
+                self.emit(st2, "cond", (lc, lv), s)
                 yield from self.run(body, st2)
         elif isinstance(s, ast.For):
             yield from self.for_(s, st)
